@@ -391,4 +391,10 @@ def gen_program(rng, nstmts=12, max_q=5, measure_p=0.0, if_p=0.0, reset_p=0.0, g
             st = gen_gate_stmt(rng, lay, depth=depth)
             if st:
                 nodes.append(st)
+                # the same statement again, directly afterwards (and sometimes a third time)
+                while rng.random() < 0.12:
+                    nodes.append(st)
+        # a measurement is often followed at once by another one (same or crossed pairing)
+        if nodes and nodes[-1][0] == "measure" and lay.nc() and rng.random() < 0.3:
+            nodes.append(("measure", rng.choice(lay.qubits()), rng.choice(lay.cbits())))
     return nodes, lay
